@@ -234,12 +234,24 @@ func c05ShapeOf(brr *bal_slb.BalanceRR) c05Shape {
 	return sh
 }
 
-// c05HangKey names a hang by algorithm and the discriminating list feature.
-func c05HangKey(algor int, sh c05Shape) string {
-	if algor == bal_slb.WrrSimple && sh.AvailNeg {
+// c05HangKey names a hang by algorithm and the discriminating input feature:
+// for WrrSimple whether any configuration applied so far carried a negative
+// weight (the live weight can turn negative later through slow start's stale
+// weightSS.final, so the pre-call snapshot alone does not discriminate).
+func c05HangKey(algor int, sh c05Shape, sawNeg bool) string {
+	if algor == bal_slb.WrrSimple && (sh.AvailNeg || sawNeg) {
 		return c05KeyHangNeg
 	}
-	return fmt.Sprintf("hang-%s-availpos=%v-availneg=%v", c05AlgorName(algor), sh.AvailPos, sh.AvailNeg)
+	return fmt.Sprintf("hang-%s-availpos=%v-negweight=%v", c05AlgorName(algor), sh.AvailPos, sh.AvailNeg || sawNeg)
+}
+
+func c05HasNeg(s subConf) bool {
+	for _, b := range s {
+		if b.Weight < 0 {
+			return true
+		}
+	}
+	return false
 }
 
 var c05KnownHangProbed atomic.Bool
@@ -249,6 +261,7 @@ type c05RRState struct {
 	rec      *ev.Rec
 	brr      *bal_slb.BalanceRR
 	ssActive bool
+	sawNeg   bool // some configuration applied so far carried a negative weight
 	mu       sync.Mutex
 	curAlgor int
 	curShape c05Shape
@@ -310,7 +323,7 @@ func (st *c05RRState) step(op *c05RROp) *c05Failure {
 			n = op.N
 		}
 		sh := c05ShapeOf(brr)
-		risky := op.Algor == bal_slb.WrrSimple && sh.AvailNeg && (!(sh.AvailPos || sh.AvailPosCur) || st.ssActive)
+		risky := op.Algor == bal_slb.WrrSimple && (sh.AvailNeg || st.sawNeg) && (!(sh.AvailPos || sh.AvailPosCur) || st.ssActive)
 		if risky {
 			st.rec.Class("wrrsimple-avail-negative-no-usable-positive")
 		}
@@ -330,6 +343,9 @@ func (st *c05RRState) step(op *c05RROp) *c05Failure {
 			}()
 			select {
 			case f := <-done:
+				// this shape did not hang (over-approximated prediction): probe the next one again
+				c05KnownHangProbed.Store(false)
+				st.rec.Class("known-hang-probe-returned")
 				return f
 			case <-time.After(c05KnownWindow):
 				return &c05Failure{Key: c05KeyHangNeg, Hang: true, Msg: fmt.Sprintf("BalanceRR.Balance(WrrSimple) did not return within %v: avail=%v (weight,current)=%v", c05KnownWindow, sh.Avail, sh.W)}
@@ -371,6 +387,7 @@ func (st *c05RRState) step(op *c05RROp) *c05Failure {
 		if op.reject {
 			return nil
 		}
+		st.sawNeg = st.sawNeg || c05HasNeg(op.Conf)
 		if p := ev.Try(func() { brr.Update(op.loaded) }); p != nil {
 			return &c05Failure{Key: "panic-rr-update", Msg: fmt.Sprintf("BalanceRR.Update panicked: %v", p)}
 		}
@@ -1010,14 +1027,14 @@ func c05CaseRRSeq(rt *rapid.T, rec *ev.Rec, env *c05Env) {
 	rec.Case(string(fpb), nt, classes...)
 	rec.Sample(w)
 
-	st := &c05RRState{rec: rec, brr: bal_slb.NewBalanceRR("s0")}
+	st := &c05RRState{rec: rec, brr: bal_slb.NewBalanceRR("s0"), sawNeg: c05HasNeg(init)}
 	st.brr.Init(loaded)
 	fail, hungAt := c05Watched(len(ops), func(i int) *c05Failure { return st.step(&ops[i]) })
 	if hungAt >= 0 {
 		st.mu.Lock()
 		algor, sh := st.curAlgor, st.curShape
 		st.mu.Unlock()
-		fail = &c05Failure{Key: c05HangKey(algor, sh), Hang: true,
+		fail = &c05Failure{Key: c05HangKey(algor, sh, st.sawNeg), Hang: true,
 			Msg: fmt.Sprintf("op %d (%s %s) made no progress for %v: avail=%v (weight,current)=%v", hungAt, ops[hungAt].K, c05AlgorName(algor), c05HangWindow, sh.Avail, sh.W)}
 	}
 	if fail != nil && fail.Hang {
@@ -1224,8 +1241,16 @@ func (st *c05RRState) concStep(op *c05RROp) *c05Failure {
 			return &c05Failure{Key: "panic-rr-setslowstart", Msg: fmt.Sprintf("SetSlowStart panicked: %v", p)}
 		}
 		return nil
+	case "update":
+		if op.reject {
+			return nil
+		}
+		if p := ev.Try(func() { brr.Update(op.loaded) }); p != nil {
+			return &c05Failure{Key: "panic-rr-update", Msg: fmt.Sprintf("BalanceRR.Update panicked: %v", p)}
+		}
+		return nil
 	}
-	return st.step(op)
+	return st.step(op) // avail / conn / restart: no harness state touched
 }
 
 func c05CaseTblConc(rt *rapid.T, rec *ev.Rec, env *c05Env, poisoned *bool) {
